@@ -232,18 +232,39 @@ pub fn wild_string(max_chars: usize) -> BoxedStrategy<String> {
         .boxed()
 }
 
+/// A text long enough to produce well over 64 output lines (so that
+/// anything that batches, caches or flushes by line count is reached).
+pub fn long_text(mix: Mix) -> BoxedStrategy<String> {
+    let mut m = mix;
+    m.endings = m.endings.max(10);
+    prop::collection::vec(token(m), 70..=220)
+        .prop_map(|v| v.concat())
+        .boxed()
+}
+
+/// `p E p` or `p E p E p`: identical consecutive paragraphs.
+pub fn repeated(s: BoxedStrategy<String>) -> BoxedStrategy<String> {
+    (s, prop_oneof![3 => Just("\n"), 1 => Just("\r\n")], 2usize..=3)
+        .prop_map(|(p, e, n)| vec![p; n].join(e))
+        .boxed()
+}
+
 /// Token text mixed with wild strings (thorough tier).
 pub fn any_text(mix: Mix, tier: Tier) -> BoxedStrategy<String> {
     match tier {
         Tier::Quick => prop_oneof![
-            9 => token_text(mix, tier.max_tokens()),
-            1 => wild_string(12),
+            180 => token_text(mix, tier.max_tokens()),
+            20 => wild_string(12),
+            8 => repeated(token_text(mix.no_endings(), 6)),
+            1 => long_text(mix),
         ]
         .boxed(),
         Tier::Thorough => prop_oneof![
-            6 => token_text(mix, tier.max_tokens()),
-            2 => token_text(mix, 12),
-            2 => wild_string(40),
+            120 => token_text(mix, tier.max_tokens()),
+            40 => token_text(mix, 12),
+            40 => wild_string(40),
+            8 => repeated(token_text(mix.no_endings(), 10)),
+            1 => long_text(mix),
         ]
         .boxed(),
     }
